@@ -243,6 +243,7 @@ def history_dist(case):
         "side_base": "+".join((cs.get("side_base") or {}).get("pos", "-")[0] for cs in cl),
         "eq_twin": bool(cl[0].get("eq_twin")),
         "cb_twin": bool(cl[0].get("cb_twin")),
+        "helper_sub": sum(1 for f in fs if f.get("helper_sub")),
         "conv_shared": sum(1 for f in fs if f.get("conv_shared") and f.get("converter") in ("c01", "c11")),
         "dflt_kinds": ",".join(sorted({f.get("dflt_kind", "str") for f in fs if f.get("default") == "value"})) or "-",
         "cb_odd": ",".join(sorted({f["cb_odd"] for f in fs if f.get("cb_odd")})) or "-",
@@ -296,7 +297,7 @@ def shrink_history(case, remake):
             h2["classes"][ci]["deco"]["shared"] = False
             yield from remake(h2, call)
         for fi, f in enumerate(cs.get("fields", [])):
-            for key in ("v_shared", "v_deco", "v_and", "cb_odd", "factory_style", "dflt_kind", "conv_shared", "conv_prime"):
+            for key in ("v_shared", "v_deco", "v_and", "cb_odd", "factory_style", "dflt_kind", "conv_shared", "conv_prime", "helper_sub"):
                 if f.get(key) and f.get(key) not in ("str", "sugar"):
                     h2 = copy.deepcopy(h)
                     h2["classes"][ci]["fields"][fi].pop(key)
